@@ -12,6 +12,10 @@ CONN = H + "Experimental::Connection::"
 
 
 def is_reset(ev):
+    return is_reset_direct(ev)
+
+
+def is_reset_direct(ev):
     if ev["k"] != "call":
         return False
     c = strip_tmpl(ev.get("callee") or "")
@@ -20,6 +24,10 @@ def is_reset(ev):
 
 def run(ck):
     prog = ck.prog
+    summ = lib.Summaries(prog)
+    global is_reset
+    _direct_reset = is_reset_direct
+    is_reset = summ.lift_must(_direct_reset, "parser-reset")
     ck.rule("C04-R1", "C must-pass-through (catch handlers are separate entry regions)",
             "Http::Handler::onInput resets the parser on every path that leaves after onRequest, after a refused feed and in every catch "
             "handler; client Connection routines reset the response parser (or close) on every path on which a complete response was parsed "
